@@ -26,6 +26,25 @@ fn std_ctx(trust: bool) -> c2pa::Context {
     defgen::context(trust, false, false, &json!({"verify": {"verify_trust": true, "remote_manifest_fetch": false}}))
 }
 
+/// No trust anchors, but the fixture signing certificates on the end-entity allow list: the same
+/// anchors as the "no-anchor" profile with a different allow list.
+fn allowlist_ctx() -> c2pa::Context {
+    let mut pem = String::new();
+    for (alg, _) in vmon::signers::ALGS {
+        pem.push_str(&String::from_utf8_lossy(&vmon::signers::cert_pem(alg)));
+        pem.push('\n');
+    }
+    defgen::context(false, false, false, &json!({"verify": {"verify_trust": true, "remote_manifest_fetch": false}, "trust": {"allowed_list": pem}}))
+}
+
+fn observe_allowlisted(format: &str, bytes: &[u8]) -> Obs {
+    let (f, b) = (format.to_string(), bytes.to_vec());
+    match report::catch_sdk(move || report::outcome_of(Reader::from_context(allowlist_ctx()).with_stream(&f, Cursor::new(b)))) {
+        Ok(o) => Obs { state: if o.state == "Err" { format!("Err:{}", o.error.unwrap_or_default()) } else { o.state }, report: o.report, codes: o.codes },
+        Err(p) => Obs { state: format!("Panic:{p}"), report: Value::Null, codes: vec![] },
+    }
+}
+
 fn mask_hashes(v: &mut Value) {
     match v {
         Value::Object(m) => {
@@ -291,6 +310,17 @@ fn run_history(h: usize, seed: u64, assets_v: &[assets::Asset], pool: &Ingredien
                 None => produced[i].first_untrusted = Some(o.clone()),
             }
             res.classes.push(format!("other-trust|{}|{}", produced[i].format, o.state));
+            // same anchors, different allow list, on this (history-laden) thread and on a fresh thread
+            let here = observe_allowlisted(produced[i].format, &produced[i].bytes);
+            let (f2, b2) = (produced[i].format, produced[i].bytes.clone());
+            let fresh = std::thread::spawn(move || observe_allowlisted(f2, &b2)).join().ok();
+            *res.counts.entry("allowlist_reads".into()).or_insert(0) += 1;
+            if let Some(fresh) = fresh {
+                if here != fresh && res.violation.is_none() {
+                    res.violation = Some((format!("allowlist-read|thread-history|{}", diff_class(&fresh, &here)), format!("allow-listed read after `{last_op}` differs from the same read on a fresh thread: {}", first_diff(&fresh, &here))));
+                }
+                res.classes.push(format!("allowlist|{}|{}", produced[i].format, here.state));
+            }
         }
         res.ops.push(name.clone());
         last_op = name;
